@@ -44,6 +44,46 @@ def store():
             json.dump(meta, open(dst + "/meta.json", "w"), indent=1)
     print("stored", len(os.listdir(SEED)))
 
+def store2():
+    """round 2: /tmp/wt2/out/Mnn/k (results r2-Mnn-k.txt) -> seeded/Cnn-(k+3)"""
+    head = sh("git -C /repo rev-parse --short HEAD").stdout.strip()
+    for p in PROPS:
+        for k in (1, 2, 3):
+            mid = "%s-%d" % (p, k + 3)
+            m = "M" + p[1:]
+            src = "/tmp/cm/rebased/" + mid
+            rebased = os.path.isdir(src)
+            res = "/tmp/cm/results/r2-%s-%d.txt" % (m, k)
+            if rebased:
+                res = "/tmp/cm/results/r2b-%s-%d.txt" % (m, k)
+            else:
+                src = "/tmp/wt2/out/%s/%d" % (m, k)
+            if not os.path.isdir(src) or not os.path.exists(res):
+                continue
+            line = open(res).read().strip()
+            if "demo_clean=0 apply=0 build=0 tests=0" not in line or "demo_mut=0" in line or "demo_mut=NA" in line:
+                print("skip (not confirmed):", line); continue
+            dst = os.path.join(SEED, mid)
+            shutil.rmtree(dst, ignore_errors=True)
+            os.makedirs(dst)
+            shutil.copy(src + "/patch.diff", dst + "/patch.diff")
+            shutil.copytree(src + "/demo", dst + "/demo")
+            readme = ""
+            if os.path.exists(src + "/README.md"):
+                shutil.copy(src + "/README.md", dst + "/AGENT_README.md")
+                readme = open(src + "/README.md").read()
+            meta = {
+                "id": mid, "property": p, "round": 2,
+                "origin": "second-round sub-agent given only the property record, the summaries of the first-round changes (to avoid repeating them) and a scratch worktree of /repo" + ("; patch rebased onto a later fix commit by hand (same change)" if rebased else ""),
+                "summary": first_para(readme),
+                "confirmed": {"repo_head": head, "result": line,
+                              "ran": "tools/confirm_mutant.sh: fresh worktree of /repo HEAD; demo/run.sh on the clean tree (exit 0); git apply patch.diff; go build ./...; (cd tools && go vet ./cmd/); go test -vet=off -count=1 ./... (pass); demo/run.sh on the changed tree (exit != 0)"},
+                "needs_to_manifest": "see AGENT_README.md",
+                "caught_by": [],
+            }
+            json.dump(meta, open(dst + "/meta.json", "w"), indent=1)
+    print("stored", len(os.listdir(SEED)))
+
 def first_para(t):
     for para in t.split("\n\n"):
         s = " ".join(l.strip() for l in para.splitlines() if not l.startswith("#")).strip()
@@ -146,7 +186,9 @@ def index():
 
 if __name__ == "__main__":
     cmd = sys.argv[1]
-    if cmd == "store": store()
+    if cmd == "store2":
+        store2()
+    elif cmd == "store": store()
     elif cmd == "matrix": matrix(sys.argv[2:])
     elif cmd == "index": index()
     elif cmd == "verify": verify(sys.argv[2], sys.argv[3:])
